@@ -47,7 +47,7 @@ def gen(rng, tier, idx):
     sched['poison'] = rng.random() < 0.7
     return dict(kind=kind, P=max(g[0] * g[1] for g in grids), ckw=ckw, grids=grids,
                 chi=rng.choice([0, 1]), adiabatic=rng.random() < 0.75, rseed=rng.randrange(1 << 30),
-                complex_rho=rng.random() < 0.15, twice=rng.random() < 0.4, start=rng.choice(['flux_surface', 'v_parallel', 'poloidal']),
+                complex_rho=rng.random() < 0.15, twice=rng.random() < 0.4, regrid=rng.random() < 0.4, start=rng.choice(['flux_surface', 'v_parallel', 'poloidal']),
                 sched=sched)
 
 
@@ -69,8 +69,13 @@ def run_pipeline(case, tape):
     phis = []
     for g in case['grids']:
         P = g[0] * g[1]
+        alt = None
+        if case.get('regrid'):
+            cand = [a for a in phys.admissible_grids(npts) if a[0] * a[1] == P and list(a) != list(g)]
+            if cand:
+                alt = cand[case['rseed'] % len(cand)]
 
-        def rank_fn(comm, rank):
+        def rank_fn(comm, rank, alt=alt):
             f, constants = phys.setup_f(comm, ckw, 'v_parallel')
             phys.check_forced(f, g)
             pipe = phys.Pipeline(comm, f, constants, chi=case['chi'], adiabatic=case['adiabatic'])
@@ -107,7 +112,26 @@ def run_pipeline(case, tape):
                 rho.setLayout('v_parallel_2d')
                 QN.findPotential(phi)
                 phi2 = phys.block(phi)
-            return dict(phi=out_phi, phi2=phi2, modes=modes,
+            phi3 = None
+            if alt is not None:
+                # the same solver object on grids distributed over another process grid of the same communicator
+                # (the solver holds no decomposition: its per-mode work must follow the grids it is handed)
+                from pygyro.model.layout import getLayoutHandler
+                from pygyro.model.grid import Grid
+                lp = {'v_parallel_2d': [0, 2, 1], 'mode_solve': [1, 2, 0]}
+                h_r = getLayoutHandler(comm, lp, list(alt), f.eta_grid[:3])
+                h_p = getLayoutHandler(comm, lp, list(alt), f.eta_grid[:3])
+                rho_b = Grid(f.eta_grid[:3], f.getSpline(slice(0, 3)), h_r, 'v_parallel_2d', comm, dtype=np.complex128)
+                phi_b = Grid(f.eta_grid[:3], f.getSpline(slice(0, 3)), h_p, 'mode_solve', comm, dtype=np.complex128)
+                rho_b.getAllData()[:] = cm.local(R2, rho_b.getLayout('v_parallel_2d'))
+                QN.getModes(rho_b)
+                rho_b.setLayout('mode_solve')
+                cm.poison(phi_b.getAllData())
+                QN.solveEquation(phi_b, rho_b)
+                phi_b.setLayout('v_parallel_2d')
+                QN.findPotential(phi_b)
+                phi3 = phys.block(phi_b)
+            return dict(phi=out_phi, phi2=phi2, phi3=phi3, modes=modes,
                         eta=[np.asarray(x) for x in f.eta_grid] if rank == 0 else None,
                         cdict=ref.constants_dict(constants) if rank == 0 else None)
 
@@ -133,8 +157,16 @@ def run_pipeline(case, tape):
                 e2 = phys.relerr(got2, ref.qn_ref(R2, eta, cdict, case['chi'], case['adiabatic']))
                 if not (e2 <= 1e-9):
                     raise OracleFail('potential-differs', dict(grid=g, relerr=e2, why='second solve on the same solver and grids'))
+            pr = {'grid_%dx%d' % (g[0], g[1]): 1}
+            if results[0].get('phi3') is not None:
+                got3 = phys.assemble([r['phi3'] for r in results], npts[:3], 'phi (other process grid, same solver)')
+                e3 = phys.relerr(got3, ref.qn_ref(R2, eta, cdict, case['chi'], case['adiabatic']))
+                if not (e3 <= 1e-9):
+                    raise OracleFail('potential-differs', dict(grid=g, relerr=e3,
+                                                               why='same solver used on grids over another process grid'))
+                pr['solver_reused_on_other_process_grid'] = 1
             phis.append(got)
-            return dict(probes={'grid_%dx%d' % (g[0], g[1]): 1})
+            return dict(probes=pr)
         with phys.force_procs({P: g}):
             res = M.run(P, case['sched'], rank_fn, post)
         if res['status'] != 'ok':
